@@ -29,7 +29,11 @@ SPEC_FIELDS = {"C01": ["match", "val"], "C02": ["trace"], "C05": ["stores"], "C1
 
 PROPS = {
     "C01": h1prop("PigeonVerif.Properties.C01", P(["val", "pos", "noerr"]),
-                  [("core", 5000, 150000), ("blocks", 1500, 40000), ("throw", 800, 20000), ("lr", 800, 20000), ("utf8", 800, 20000)],
+                  [("core", 5000, 150000), ("blocks", 1500, 40000), ("throw", 800, 20000), ("lr", 800, 20000), ("utf8", 800, 20000),
+                   # bounded-exhaustive (pvenum): every start-rule body of at most 4 nodes (thorough: 5) over 9 leaves, 7 unary and
+                   # 2 binary operators x every input over {a,b} up to length 3 (+ stray bytes), options and variants rotated;
+                   # quick: a quarter of the 115 760 cases (the residue class depends on the seed), thorough: all 1 237 940
+                   ("enum", 29000, 1300000)],
                   # pvlower: what builder.go emits, read back and run, against the reference evaluation of the AST;
                   # pve2e -ref: the whole chain from the grammar TEXT (front-end, builder, go build, runtime) against the
                   # reference interpreter on the AST that was printed
@@ -69,7 +73,8 @@ PROPS = {
     "C11": h1prop("PigeonVerif.Properties.C11", P(["val", "errs"]),
                   [("panic", 3000, 90000), ("blocks", 2500, 60000), ("lr", 4000, 100000), ("utf8", 500, 10000)], oracles=[orc_c11]),
     "C12": h1prop("PigeonVerif.Properties.C12", P(["errs", "mf"]),
-                  [("core", 5000, 150000), ("utf8", 1000, 30000), ("throw", 1000, 30000), ("lr", 1000, 20000)], oracles=[orc_c12],
+                  [("core", 5000, 150000), ("utf8", 1000, 30000), ("throw", 1000, 30000), ("lr", 1000, 20000),
+                   ("enum", 14000, 400000)], oracles=[orc_c12],
                   # Memoize must not change the failure report (C12 has no exemption for it); known finding D30
                   twins=twins_c12, twin_rel=rel_c12,
                   # the REAL tool's syntax errors: the tables of grammar/pigeon.peg run by the model predict `pigeon -x`'s
